@@ -166,7 +166,7 @@ func init() {
 		for i := range arr {
 			arr[i] = h.elem()
 		}
-		h.arg("len=%d cap=%d", n, n+spare)
+		h.arg("%v cap=%d", arr, n+spare)
 		h.res(kSeq, Seq(arr))
 		views := h.n(4)
 		for i := 0; i < views; i++ {
@@ -192,7 +192,7 @@ func init() {
 		for i := range ps {
 			ps[i] = as.Tuple2(h.elem(), h.elem())
 		}
-		h.arg("len=%d cap=%d", n, n+spare)
+		h.arg("%v cap=%d", ps, n+spare)
 		h.res(kPairs, ps)
 	})
 	def("harness.new-gomap", 1, nil, func(h *hist, _ []*entry) {
@@ -201,7 +201,7 @@ func init() {
 		for i := 0; i < n; i++ {
 			m[h.elem()] = h.elem()
 		}
-		h.arg("%d puts", n)
+		h.arg("%v", m)
 		h.res(kGoMap, m)
 	})
 	// a further view of a live slice: any window of its backing array up to capacity, i.e.
@@ -768,7 +768,7 @@ func init() {
 		h.arg("%d Add", n)
 		h.res(kMapB, bv)
 	})
-	def("MapBuilder.Add", 3, []kind{kMapB}, func(h *hist, in []*entry) {
+	def("MapBuilder.Add", 6, []kind{kMapB}, func(h *hist, in []*entry) {
 		bv := in[0].v.(*builderV)
 		n := 1 + h.n(3)
 		kv := h.items(2 * n)
@@ -779,7 +779,7 @@ func init() {
 			}
 		})
 	})
-	def("MapBuilder.Build", 3, []kind{kMapB}, func(h *hist, in []*entry) {
+	def("MapBuilder.Build", 5, []kind{kMapB}, func(h *hist, in []*entry) {
 		bv := in[0].v.(*builderV)
 		h.builderUse(bv, "MapBuilder.Build", func() {
 			m := bv.build().(FMap)
@@ -858,7 +858,7 @@ func init() {
 		h.arg("%d Add", n)
 		h.res(kSetB, bv)
 	})
-	def("SetBuilder.Add", 3, []kind{kSetB}, func(h *hist, in []*entry) {
+	def("SetBuilder.Add", 6, []kind{kSetB}, func(h *hist, in []*entry) {
 		bv := in[0].v.(*builderV)
 		ks := h.items(1 + h.n(3))
 		h.arg("%v", ks)
@@ -868,7 +868,7 @@ func init() {
 			}
 		})
 	})
-	def("SetBuilder.Build", 3, []kind{kSetB}, func(h *hist, in []*entry) {
+	def("SetBuilder.Build", 5, []kind{kSetB}, func(h *hist, in []*entry) {
 		bv := in[0].v.(*builderV)
 		h.builderUse(bv, "SetBuilder.Build", func() {
 			s := bv.build().(FSet)
